@@ -1784,6 +1784,41 @@ def grid_classes(tier):
     return out
 
 
+def grid_finally_inner(tier):
+    """a completion pending across a finally block whose body itself handles other completions"""
+    out = []
+    pend = {
+        "throw-try": lambda: (block(throw(new(I("Error"), S("e")))), 0),
+        "throw-catch": lambda: (block(throw(num(2))), block(throw(new(I("Error"), S("e"))))),
+        "return-try": lambda: (block(return_(S("ret"))), 0),
+        "return-catch": lambda: (block(throw(num(2))), block(return_(S("ret")))),
+        "break-catch": lambda: (block(throw(num(2))), block(break_())),
+        "normal": lambda: (block(_p(S("body"))), 0),
+    }
+    inner = {
+        "empty": lambda: [],
+        "try-catch": lambda: [try_(block(throw(num(1))), "x", block(_p(S("inner caught"), I("x"))))],
+        "try-catch-nobind": lambda: [try_(block(throw(num(1))), 0, block(_p(S("inner caught"))))],
+        "try-finally": lambda: [try_(block(_p(S("inner try"))), 0, 0, block(_p(S("inner fin"))))],
+        "loop-break": lambda: [while_(boolean(True), block(_p(S("inner loop")), break_()))],
+        "call-throwing": lambda: [try_(block(expr(call(I("thrower")))), "x", block(_p(S("inner caught"), I("x"))))],
+        "gen-return": lambda: [forof("const", "q", call(I("G")), block(_p(S("q"), I("q")), break_()))],
+    }
+    for (pn, mk), (inn, mi) in itertools.product(pend.items(), inner.items()):
+        b, h = mk()
+        tr = try_(b, ("e" if h else 0), h, block(_p(S("fin")), *mi(), _p(S("fin end"))))
+        f = function("f", [], [dowhile(block(tr, _p(S("after try"))), boolean(False)), _p(S("end")), return_(S("fell"))])
+        prog = program([function("thrower", [], [throw(S("T"))]), generator("G", [], [try_(block(expr(yield_(num(1))), expr(yield_(num(2)))), 0, 0, block(_p(S("G closed"))))]),
+                        f, _guard([_p(S("result"), call(I("f")))], "caught")])
+        out.append(("finally-inner/%s/%s" % (pn, inn), prog))
+        if pn in ("throw-try", "throw-catch", "normal"):
+            b2, h2 = mk()
+            tr2 = try_(b2, ("e" if h2 else 0), h2, block(_p(S("fin")), *mi(), _p(S("fin end"))))
+            out.append(("finally-inner-script/%s/%s" % (pn, inn),
+                        program([function("thrower", [], [throw(S("T"))]), generator("G", [], [try_(block(expr(yield_(num(1)))), 0, 0, block(_p(S("G closed"))))]), tr2, _p(S("end"))])))
+    return out
+
+
 def grid_misc(tier):
     out = []
     t = function("t", params("x"), [_p(S("ev"), I("x")), return_(I("x"))])
@@ -1832,7 +1867,7 @@ def grid_misc(tier):
 
 
 GRID_FAMILIES = {"exits": grid_exits, "genexits": grid_generator_exits, "bindings": grid_bindings, "operators": grid_operators,
-                 "destructuring": grid_destructuring, "completion": grid_completion, "classes": grid_classes, "misc": grid_misc}
+                 "destructuring": grid_destructuring, "completion": grid_completion, "classes": grid_classes, "misc": grid_misc, "finally-inner": grid_finally_inner}
 
 
 def grids(tier="quick", families=None):
